@@ -286,15 +286,24 @@ def _bounds(ctx: Ctx) -> None:
     ev = make_evaluator(repo, init, extra_call=hook)
     ev.int_transparent = True
     pen = None
+    ienv = Env()
     for s in func_body(init):
         if isinstance(s, (ast.Assign, ast.AnnAssign)) and isinstance(
                 s.targets[0] if isinstance(s, ast.Assign) else s.target,
                 ast.Attribute) and (s.targets[0] if isinstance(
                     s, ast.Assign) else s.target).attr == "bye_penalty":
             try:
-                pen = ev.num(Env(), s.value)
+                pen = ev.num(ienv, s.value)
             except Unsupported:
                 pen = None
+        elif isinstance(s, (ast.Assign, ast.AnnAssign)) and isinstance(
+                s.targets[0] if isinstance(s, ast.Assign) else s.target,
+                ast.Name) and s.value is not None:
+            # a local of the constructor (e.g. the hoisted maximum)
+            try:
+                ienv = ev.stmt(ienv, s)
+            except Unsupported:
+                pass
     mx = Poly.atom(("app", "matrix_max", ()))
     margin = (pen - mx - mx).const_value() if pen is not None else None
     ok = margin is not None and margin >= 1
@@ -345,9 +354,17 @@ def _bounds(ctx: Ctx) -> None:
                 and len(x.value.elts) == 2:
             env = Env()
             try:
-                for s in func_body(ib):
-                    if isinstance(s, (ast.Assign, ast.AnnAssign)):
+                # the locals defined (once) before this return, in source
+                # order, wherever they are nested
+                for s in sorted((a_ for a_ in ast.walk(ib.node)
+                                 if isinstance(a_, (ast.Assign,
+                                                    ast.AnnAssign))
+                                 and a_.lineno < x.lineno),
+                                key=lambda a_: a_.lineno):
+                    try:
                         env = ev3.stmt(env, s)
+                    except Unsupported:
+                        pass
                 hi = ev3.num(env, x.value.elts[1])
                 n_ = Poly.var("self.n_cities")
                 r_ = Poly.var("self.rounds")
